@@ -23,7 +23,21 @@ func verifTrackArray(p unsafe.Pointer, n int) {
 	verifArrays.Store(uintptr(p), n)
 }
 
+// verifTakeSliceHeader: h is in use by one decode from here on (it came out of the pool or was made)
+func verifTakeSliceHeader(h *sliceHeader) {
+	verifPooled.Delete(uintptr(unsafe.Pointer(h)))
+}
+
+var verifPooled sync.Map // address of a header that was put back and not taken since
+
 func verifCheckSliceHeader(h *sliceHeader) {
+	if _, twice := verifPooled.LoadOrStore(uintptr(unsafe.Pointer(h)), true); twice {
+		verifPoolMu.Lock()
+		if len(verifPoolErrs) < 20 {
+			verifPoolErrs = append(verifPoolErrs, "a header is put back into the pool twice: two decodes will share its working array")
+		}
+		verifPoolMu.Unlock()
+	}
 	made, ok := verifArrays.Load(uintptr(h.data))
 	msg := ""
 	switch {
